@@ -32,6 +32,12 @@ fn parse(kind: &str, hex: &str) -> P {
         "SomeByte" => P::Optional(Some(Box::new(P::Byte(v as u8)))),
         "SomeBool" => P::Optional(Some(Box::new(P::Bool(v != 0)))),
         "SomeNil" => P::Optional(Some(Box::new(P::Optional(None)))),
+        k if k.starts_with("Heap") => {
+            // a HeapPrimitive::Lookup reference to a variable cell holding the inner shape
+            let inner = parse(&k[4..], hex);
+            let pair = crate::stack::PrimitiveFlagsPair::new(inner, crate::stack::VariableFlags::none());
+            P::HeapPrimitive(crate::variables::HeapPrimitive::new_lookup_view(pair))
+        }
         _ => panic!("kind {kind}"),
     }
 }
@@ -50,6 +56,10 @@ fn show(p: &P) -> String {
         P::Byte(x) => format!("OK Byte {:x}", *x),
         P::Bool(x) => format!("OK Bool {:x}", *x as u8),
         P::Str(s) => format!("OK Str {}", s.bytes().map(|b| format!("{:02x}", b)).collect::<String>()),
+        P::HeapPrimitive(hp) => match hp.to_owned_primitive() {
+            Ok(inner) => format!("OK Heap{}", &show(&inner)[3..]),
+            Err(_) => "OK Other heap-error".to_string(),
+        },
         P::Optional(None) => "OK Nil 0".to_string(),
         P::Optional(Some(b)) => format!("OK Some{}", &show(b)[3..]),
         other => format!("OK Other {:?}", other.ty()),
